@@ -51,7 +51,7 @@ def run(ctx, res):
 
     # ---- R2 -----------------------------------------------------------------
     wf = first[0]
-    ev = APE.run(prog, cg, wf, bound=1, opaque_calls=("write",))
+    ev = APE.run(prog, cg, wf, bound=APE.BOUND, opaque_calls=("write",))
     res.floor("C20.R2", 4)
     npaths = 0
     for p in ev.paths:
